@@ -157,6 +157,12 @@ def check_unchecked_access(rep, runs):
                 rep.check(not leaks, rule, "%s: buffer peek at %s:%s only selects a branch" % (label, e.func.split(".")[-1], getattr(e.node, "lineno", "?")),
                           e.func, e.node, "bytes are taken from the stream buffer without a range check and flow into the output "
                           "(read past the end yields fabricated values)", node=e.node)
+            if e.kind == "call" and e.data[0] == DS + ".check_range" and e.func.startswith("pel.peltool."):
+                # a PEL decoder that asks whether bytes remain and carries on without them accepts truncated input;
+                # the checked reads are what rejects it
+                n += 1
+                rep.fail(rule, e.func, e.node, "the decoder tests the remaining length itself (check_range) instead of letting the checked "
+                         "read fail: a section cut short at this point is decoded as if it were complete", node=e.node)
             if e.kind == "attr_store" and is_stream_obj(I, e.data[0]) and e.data[1] in ("index", "data", "size") and \
                     not e.func.startswith(DS + "."):
                 n += 1
@@ -238,6 +244,10 @@ def ast_len_progress(node):
     return False
 
 
+def S_base(e):
+    return e.data[0]
+
+
 def check_barriers_all_modes(rep, prog):
     rule = "C05.R3.ordinary-errors"
     fm = FullMain(prog)
@@ -272,6 +282,17 @@ def check_barriers_all_modes(rep, prog):
         rep.check(ok, rule, "%s:%s decode call is inside try/except Exception that reports on stderr" % (where.split(".")[-1], getattr(D.node, "lineno", "?")),
                   where, D.node, "a decode error is not turned into an ordinary stderr report (%s)" % why, node=D.node)
     rep.floor("decode call sites in the CLI", n, 10)
+    # what is read out of a decode result (summary['SRC'], ...) can fail for a damaged PEL just like the decode itself:
+    # it must sit behind the same kind of barrier
+    m = 0
+    for S in [e for e in ev if e.kind == "subscript" and any(isinstance(x, Op) and x.op.startswith("call:") and x.op[5:] in DECODERS
+                                                             for x in walk(S_base(e)))]:
+        m += 1
+        covered = any(any(h.data[1] in BROAD for h in handlers.get(exc, [])) for exc in tries_covering(ev, S))
+        rep.check(covered, rule, "%s:%s look-up in a decode result is inside try/except Exception" % (S.func.split(".")[-1], getattr(S.node, "lineno", "?")),
+                  S.func, S.node, "a field is read out of a decode result outside any 'except Exception' barrier: a PEL without that field "
+                  "(e.g. no primary SRC) ends the run with a traceback", node=S.node)
+    rep.count("look-ups in decode results", m)
     # parsePEL's own exits: only under exit_on_error, status 1
     I = Interpreter(prog, hooks={"opaque": {PT + "sectionFun", PT + "considerPEL", PT + "prettyPrint", PT + "buildOutput"}})
     st = pelx.new_stream(I)
